@@ -6,7 +6,7 @@
 (* code (`read` returns rune(0) at the end).                                *)
 EXTENDS Bytes, TLC
 
-CONSTANT LexDev     \* deviation switches: "AsIsFinalSwitch", "RegexIgnoresEof", "TwoRuneUnread"
+CONSTANT LexDev     \* deviation switches: "AsIsFinalSwitch", "RegexIgnoresEof", "TwoRuneUnread", "SpaceEndsEscape"
 
 (* ----------------------------------------------------------- char classes *)
 IsLetterCh(c) == IsLetter(c)              \* ASCII scope (the code uses unicode.IsLetter)
@@ -67,7 +67,8 @@ Run(src, p, st, buf, fuel) ==
   ELSE IF ch = DASH /\ st \in {"START", "DASH"} THEN More(IF st = "START" THEN "DASH" ELSE "COMMENTSTART", B1)
   ELSE IF st = "START" /\ ch \in OpChars THEN Stop("OPERATOR", B1)
   ELSE IF st = "START" /\ ch \in {GT, LT} THEN More("OPSTART", B1)
-  ELSE IF IsSpaceCh(ch) THEN (IF st \in {"START", "WS"} THEN More("WS", B1) ELSE Unread(st, buf))
+  ELSE IF IsSpaceCh(ch) /\ (st \notin {"ESC_D", "ESC_S"} \/ "SpaceEndsEscape" \in LexDev)
+       THEN (IF st \in {"START", "WS"} THEN More("WS", B1) ELSE Unread(st, buf))
   ELSE IF IsDigitCh(ch) /\ st \in {"NUMBER", "START"} THEN More("NUMBER", B1)
   ELSE IF IsLetterCh(ch) /\ st = "START" THEN More("IDENT", B1)
   ELSE IF (IsDigitCh(ch) \/ IsLetterCh(ch)) /\ st = "IDENT" THEN More("IDENT", B1)
@@ -137,10 +138,16 @@ LexFrom(src, p, acc) ==
       k == KindOf(r.st, r.buf)
   IN IF k \in {"LEXERROR", "PANIC", "HANG"} THEN [ok |-> FALSE, why |-> k, toks |-> acc]
      ELSE IF k = "EOF" THEN [ok |-> TRUE, why |-> "", toks |-> acc]
-     ELSE LexFrom(src, r.next, Append(acc, [kind |-> k, buf |-> r.buf]))
+     ELSE LexFrom(src, r.next, Append(acc, [kind |-> k, buf |-> r.buf, s |-> p, e |-> r.next]))
 Lex(src) == LexFrom(src, 0, <<>>)
 
 Significant(toks) == SelectSeq(toks, LAMBDA t : t.kind \notin {"WS", "COMMENT"})
+(* the meaning-bearing part of a token: its kind and text (words compare     *)
+(* case-insensitively when they are keywords)                                *)
+LowerB(c) == IF c >= 65 /\ c <= 90 THEN c + 32 ELSE c
+LowerSeq(s) == [i \in 1..Len(s) |-> LowerB(s[i])]
+TokKey(t) == [kind |-> t.kind, buf |-> t.buf]
+Keys(toks) == [i \in 1..Len(toks) |-> TokKey(toks[i])]
 
 (* ------------------------------------------------------- string literals   *)
 (* spellings of one byte b inside a literal quoted with q                    *)
@@ -150,6 +157,12 @@ SpellHex(b, upper) == <<BSL, 120, HexDigit(b \div 16, upper), HexDigit(b % 16, u
 SpellBackslash(b)  == <<BSL, b>>
 EscapeLetter(b) == CASE b = 10 -> 110 [] b = 9 -> 116 [] b = 13 -> 114 [] b = 7 -> 97
                      [] b = 8 -> 98 [] b = 12 -> 102 [] b = 11 -> 118 [] OTHER -> 0
+(* every spelling of byte b inside quotes q                                  *)
+SpellingsOf(b, q) ==
+  {SpellHex(b, TRUE), SpellHex(b, FALSE)}
+    \cup (IF b \notin {q, BSL, 0} THEN {SpellRaw(b)} ELSE {})
+    \cup (IF EscapeLetter(b) # 0 THEN {<<BSL, EscapeLetter(b)>>} ELSE {})
+    \cup (IF EscapeOf(b) = b /\ b # 120 THEN {SpellBackslash(b)} ELSE {})    \* backslash before any other character
 (* the bytes a literal spelled `body` between quotes q denotes: what the     *)
 (* automaton gathers                                                         *)
 Denote(q, body) ==
